@@ -46,12 +46,40 @@ func (e *Engine) verifyFunc(fn *ssa.Function, ct *Contract, slice map[string]boo
 			te.bind(p.Name(), v, p.Type())
 		}
 	}
+	var own *Contract
 	if ct != nil {
 		te.bindLets(ct, true)
 		for _, cl := range ct.Requires {
 			if cl.inSlice(slice) {
 				vc.assume("true", te.formula(cl.E))
 			}
+		}
+		// implementer mode: the function's own contract contributes its object invariants (assumed)
+		// and its other preconditions, which the interface's preconditions must imply.
+		if e.selfIface != nil {
+			own = e.specs.contracts[fnKey(fn)]
+		}
+		if own != nil && own != ct {
+			for i, p := range fn.Params {
+				if i < len(own.Params) {
+					te.bind(own.Params[i], args[i], p.Type())
+				}
+			}
+			te.bindLets(own, true)
+			for _, cl := range own.Requires {
+				if !cl.inSlice(slice) {
+					continue
+				}
+				f := te.formula(cl.E)
+				if !cl.isInv() {
+					vc.oblige("subtype-pre", shortFn(fn)+"#subtype-pre", vc.pos(fn.Pos()), "interface precondition implies "+cl.Text+" ["+cl.Src+"]", "true", f, cl.Tags)
+				}
+				vc.assume("true", f)
+			}
+			// loop annotations come from the function's own contract
+			merged := *ct
+			merged.Loops = own.Loops
+			ct = &merged
 		}
 	}
 	for _, ax := range e.specs.axioms {
